@@ -767,3 +767,12 @@ Example C05_db_sample_remove_edge :
   exists G', Graph.remove_edge (gr sx_db) (-3)%Z = Some G' /\ g_from G' = [0; 0; 0; 0]%Z /\ g_fmeta G' = [-3; 0; 0; -9223372036854775808]%Z.
 Proof. exact sy_remove_edge_sample. Qed.
 Print Assumptions C05_db_sample_remove_edge.
+
+(* the side condition so_graph_ok is a consequence of C08's well-formedness (what every history of graph.rs operations from
+   graph_new satisfies: C08_history_refines) and the capacity bound; so_edge_ok / so_remove_edge_ok (degree counters within
+   i64, visited slots inside the arrays, walks that end) are NOT linked to wf here *)
+From Agdb Require GraphSim StoredDbOpsWf.
+Theorem C05_db_graph_side_condition_from_wf :
+  forall g, GraphSim.wf g -> (Graph.capacity g < 1152921504606846976)%Z -> so_graph_ok g.
+Proof. exact StoredDbOpsWf.wf_so_graph_ok. Qed.
+Print Assumptions C05_db_graph_side_condition_from_wf.
